@@ -451,4 +451,48 @@ theorem bindParams1d (a : String) (da : Val) (c : Call) (vs : List Val)
 theorem asInts_ok {v : Val} {l : List Int} (h : asInts v = .ok l) : v = .ints l := by
   cases v <;> simp [asInts] at h; subst h; rfl
 
+
+
+theorem insertPath_mem_self (ks : List Key) (p : Key) : p ∈ insertPath ks p := by
+  unfold insertPath
+  by_cases h : ks.contains p = true
+  · simp only [h, if_true]; simpa using h
+  · simp only [h, Bool.false_eq_true, if_false]; simp
+
+theorem insertPath_mem_of_unrelated (ks : List Key) (p q : Key) (hq : q ∈ ks) (hu : q = p ∨ Unrelated q p) :
+    q ∈ insertPath ks p := by
+  rcases hu with rfl | hu
+  · exact insertPath_mem_self ks q
+  · unfold insertPath
+    by_cases h : ks.contains p = true
+    · simp only [h, if_true]; exact hq
+    · simp only [h, Bool.false_eq_true, if_false, List.mem_append, List.mem_filter]
+      left
+      exact ⟨hq, by simp [hu.1, hu.2]⟩
+
+/-- folding `insertPath` over a list of pairwise unrelated paths keeps every one of them, and keeps the earlier
+keys that are unrelated to all of them -/
+theorem foldl_insertPath_mem : ∀ (l : List Key) (ks : List Key) (k : Key),
+    (∀ a ∈ l, ∀ b ∈ l, a = b ∨ Unrelated a b) →
+    (k ∈ l ∨ (k ∈ ks ∧ ∀ p ∈ l, k = p ∨ Unrelated k p)) → k ∈ l.foldl insertPath ks
+  | [], ks, k, _, h => by
+    rcases h with h | h
+    · simp at h
+    · simpa using h.1
+  | p :: l, ks, k, hl, h => by
+    simp only [List.foldl_cons]
+    apply foldl_insertPath_mem l (insertPath ks p) k (fun a ha b hb => hl a (by simp [ha]) b (by simp [hb]))
+    rcases h with h | h
+    · rcases List.mem_cons.1 h with rfl | hk
+      · right
+        refine ⟨insertPath_mem_self ks k, ?_⟩
+        intro q hq
+        exact hl k (by simp) q (by simp [hq])
+      · left; exact hk
+    · right
+      refine ⟨insertPath_mem_of_unrelated ks p k h.1 (h.2 p (by simp)), ?_⟩
+      intro q hq
+      exact h.2 q (by simp [hq])
+
+
 end TdVerif.C17
